@@ -161,8 +161,12 @@ type c11dir struct {
 	refuse           int
 	got              [][]byte
 	recvErr, again   error
+	againData        []byte
 	sendErr          string
 	big              bool
+	peer             *c11dir // duplex: the opposite direction (nil: simplex)
+	closesFirst      bool    // duplex: this direction's sending endpoint closes first
+	recvDone         bool
 }
 
 func genRecords(r *Run, fs framingSpec, max int) ([][]byte, int, bool) {
@@ -182,9 +186,9 @@ func genRecords(r *Run, fs framingSpec, max int) ([][]byte, int, bool) {
 		}
 		seed := uint32(g.Int("content", 1<<16))
 		var rec []byte
-		if fs.JSON && g.Chance("emptyjson", 0.08) {
-			rec = []byte{} // the RawJSON framing transmits an empty record as null
-		} else if fs.JSON {
+		if fs.JSON {
+			// (an empty record is not a JSON value, hence not a record legal for
+			// RawJSON: what the framing makes of it is not judged)
 			rec = genJSONRecord(r, l, seed)
 		} else {
 			rec = fill(l, seed, fs.Split)
@@ -220,17 +224,37 @@ func (d *c11dir) spawn(r *Run, fs framingSpec) {
 				return
 			}
 		}
+		// One channel value serves both directions of its endpoint, and closing
+		// it may end its receiving side too (a net.Conn does). So an endpoint
+		// closes only when it has nothing more to receive: the endpoint that
+		// closes first waits for all the records its peer sends (and is then not
+		// asked for the end of that stream), the other waits for the end of the
+		// stream it receives.
+		if p := d.peer; p != nil {
+			if d.closesFirst {
+				rt.Block("close:wait-records", func() bool { return p.recvDone })
+			} else {
+				rt.Block("close:wait-eof", func() bool { return p.recvDone })
+			}
+		}
+		r.Ev("c11.close", d.name, len(d.recs), 0, "")
 		d.chS.Close()
 	})
 	r.Sim.Spawn("b-recv-"+d.name, func() {
+		defer func() { d.recvDone = true; r.Ev("c11.recvdone", d.name, len(d.got), 0, errStr(d.recvErr)) }()
 		for {
+			if d.peer != nil && d.peer.closesFirst && len(d.got) == len(d.recs) {
+				// the receiving endpoint of this direction closes first: it reads
+				// the records and does not wait for the end of the stream
+				return
+			}
 			b, err := d.chR.Recv()
 			if err != nil {
 				if len(b) != 0 {
 					d.got = append(d.got, append([]byte(nil), b...))
 				}
 				d.recvErr = err
-				_, d.again = d.chR.Recv()
+				d.againData, d.again = d.chR.Recv()
 				return
 			}
 			d.got = append(d.got, append([]byte(nil), b...))
@@ -262,12 +286,16 @@ func (d *c11dir) judge(r *Run, fs framingSpec) {
 		r.Fail("record-mismatch", "%s: %d records sent, %d received; extra: %s", name, len(d.recs), len(d.got), preview(d.got[len(d.recs)]))
 		return
 	}
+	if d.peer != nil && d.peer.closesFirst {
+		return // its receiving endpoint closed first (see spawn): the records are all there is to judge
+	}
 	if d.recvErr != io.EOF {
 		r.Fail("missing-eof", "%s: after the last record Recv returned %v, want io.EOF", name, d.recvErr)
 		return
 	}
-	if d.again != io.EOF {
-		r.Fail("missing-eof", "%s: a further Recv after io.EOF returned %v, want io.EOF again", name, d.again)
+	// once the stream is exhausted Recv keeps failing (with io.EOF or otherwise)
+	if d.again == nil || len(d.againData) != 0 {
+		r.Fail("missing-eof", "%s: a further Recv after io.EOF returned %s, %v; want no data and an error", name, preview(d.againData), d.again)
 	}
 }
 
@@ -293,6 +321,9 @@ func scenarioC11(r *Run) {
 		ba.recs, _, _ = genRecords(r, fs, 3)
 		ab.chS, ab.chR = c, s
 		ba.chS, ba.chR = s, c
+		ab.peer, ba.peer = ba, ab
+		ab.closesFirst = g.Chance("acloses", 0.5)
+		ba.closesFirst = !ab.closesFirst
 		dirs = append(dirs, ba)
 	case duplex:
 		ba := &c11dir{name: "B->A", refuse: -1}
@@ -304,6 +335,22 @@ func scenarioC11(r *Run) {
 		b := fs.F(ab.st, ba.st)
 		ab.chS, ab.chR = a, b
 		ba.chS, ba.chR = b, a
+		ab.peer, ba.peer = ba, ab
+		ab.closesFirst = g.Chance("acloses", 0.5)
+		ba.closesFirst = !ab.closesFirst
+		if fs.JSON {
+			// RawJSON has no delimiter: a scalar (number, string, literal) at the very end of what has been
+			// written is complete only when more data or the end of the stream
+			// follows. The endpoint that closes first reads its records without
+			// waiting for that end, so the last one it reads delimits itself.
+			in := ba // read by endpoint A
+			if ba.closesFirst {
+				in = ab
+			}
+			if n := len(in.recs); n > 0 && !strings.ContainsAny(string(in.recs[n-1][:1]), `{[`) {
+				in.recs = append(in.recs, []byte(`{"last":true}`))
+			}
+		}
 		dirs = append(dirs, ba)
 		r.Probe("duplex-use-of-one-channel-value")
 	default:
